@@ -34,6 +34,10 @@ def gen_cases(rng, tier: str) -> list[dict]:
             tw = [t for _, t in gen.twin_patterns(g)]
             pool3 = H.float_pool(rng.sample(tw, min(3, len(tw))))
             cases.append({"origin": "twins", "pool": H.pool_to_wire(pool3), "ops": H.random_ops(rng, pool3, L)})
+        if h % 4 == 1:
+            pool7 = H.float_pool(H.nested_pool(rng))
+            for ops in H.sharing_prefixes(rng, pool7):
+                cases.append({"origin": "sharing", "pool": H.pool_to_wire(pool7), "ops": ops + H.random_ops(rng, pool7, 2)})
         if h % 2 == 0:
             pool2 = H.sum_pool(rng) if h % 4 == 0 else pool
             cases.append({"origin": "resimplify", "pool": H.pool_to_wire(pool2),
@@ -72,6 +76,7 @@ def check_cases(cases: list[dict], rep: Report, known: dict) -> None:
         hist = H.Runner(pool)
         returned: list[tuple] = []          # (expression, snapshot) handed to the caller
         points: dict[str, tuple] = {}
+        probed: dict[int, str] = {}
         rep.case((tuple(c["pool"]), str(c["ops"])), len(c["ops"]) >= 3)
         rep.count("origin", c["origin"])
         done = []
@@ -125,6 +130,26 @@ def check_cases(cases: list[dict], rep: Report, known: dict) -> None:
                 if not (P == twin) or repr(P) != repr(twin):
                     rep.violation(f"persistent {type(P).__name__} {j} changed after operation {k} ({op['op']})", info)
                     ok = False
+            # ... and the derivative objects the caller kept evaluate like freshly built ones, at the caller's own
+            # Point objects (the identical objects earlier operations saw)
+            if ok and hist.pobjs and hist.points and k % 2 == 0:
+                texts = c["pool"] + hist.extra_texts
+                kept = sorted(hist.points.items())
+                for j in sorted(hist.pobjs):
+                    i, x, kind = hist.pobj_src[j]
+                    # the point this object was asked at last time (the state the previous probe left is the one a
+                    # later operation on a sharing expression must not disturb), and one that rotates
+                    for ptxt in dict.fromkeys([probed.get(j, kept[0][0]), kept[(j + k) % len(kept)][0]]):
+                        probe = {"op": "pobj_at", "j": j, "i": i, "p": ptxt, "x": x, "style": (j + k) % 3}
+                        with common.WarnCatcher():
+                            used = hist.do(dict(probe, same=True))
+                            fresh = H.fresh_result(texts, probe, hist.pobj_src[j], hist.pobj_expr_called.get(j, False))
+                        probed[j] = ptxt
+                        rep.evaluations += 1
+                        if not H.same_result(used, fresh) and "timeout" not in (used[1], fresh[1]):
+                            rep.violation(f"persistent {type(hist.pobjs[j]).__name__} {j} ({kind}) evaluates to {used!r} at {ptxt} after operation {k} "
+                                          f"({op['op']}) but a freshly built one to {fresh!r}", dict(info, probe=probe))
+                            ok = False
             if not ok:
                 break
         if ok:
